@@ -154,6 +154,12 @@ def gen_cnr(tape, tier, max_chroms=6, size_classes=None, label="cnr", force_mirr
                 null[a0:a1] = True
         l2[null] = -20.0
         dp[null] = 0.0
+        if has_depth and not mirror_arms and tape.chance(1, 8, label + ".zero_depth_mild_log2"):
+            # bins without any depth whose log2 was left just above the "low coverage" cut-off
+            # (-15): skip_low drops them for their depth alone
+            zd = rng.random(n) < 0.08
+            l2[zd & ~null] = -14.5
+            dp[zd & ~null] = 0.0
         g = _gene_names(rng, n, cname)
         chroms += [cname] * n
         starts += s.tolist()
